@@ -15,6 +15,7 @@ import (
 	"strings"
 	"testing"
 	"time"
+	_ "time/tzdata" // the named zones of the round-trip cases do not depend on the host's zone files
 	"unicode/utf8"
 
 	"github.com/whatap/golib/util/dateutil"
@@ -219,6 +220,8 @@ type FmtCase struct {
 	// Zone: the process's local zone for this case, minutes east of UTC (Parse reads the fields in the local zone,
 	// FormatTime is given the instant in that zone); 0 = UTC
 	Zone int `json:"zone,omitempty"`
+	// ZoneName: a named zone with daylight saving time instead of a fixed offset (from the embedded time zone database)
+	ZoneName string `json:"zone_name,omitempty"`
 }
 
 const fieldLetters = "ymdHMSs"
@@ -280,13 +283,21 @@ func runFmt(c FmtCase) *pbt.Result {
 	if nfields == 0 || (present['y'] != present['m'] || present['m'] != present['d']) {
 		panic("pattern outside the precondition (date letters all or none, at least one field): " + c.Pattern)
 	}
-	if c.Zone != 0 {
+	if c.Zone != 0 || c.ZoneName != "" {
 		// a day away from both ends of the century, so that the local date stays inside it
 		if c.T < baseMs+msDay || c.T >= endMs-msDay {
-			c.Zone = 0
+			c.Zone, c.ZoneName = 0, ""
 		} else {
 			old := time.Local
-			time.Local = time.FixedZone(fmt.Sprintf("UTC%+d", c.Zone), c.Zone*60)
+			if c.ZoneName != "" {
+				loc, err := time.LoadLocation(c.ZoneName)
+				if err != nil {
+					panic(err)
+				}
+				time.Local = loc
+			} else {
+				time.Local = time.FixedZone(fmt.Sprintf("UTC%+d", c.Zone), c.Zone*60)
+			}
 			defer func() { time.Local = old }()
 		}
 	}
@@ -319,7 +330,11 @@ func runFmt(c FmtCase) *pbt.Result {
 			}
 		}
 		if len(present) == 7 && ms != c.T {
-			return pbt.Fail("pattern %q has every field: Parse(Format(t)) = %d, t = %d", c.Pattern, ms, c.T)
+			// the one legitimate exception: a local time that occurs twice (the hour repeated when daylight saving
+			// time ends) names two instants; both render to the same text
+			if again := dateutil.NewDateFormat(c.Pattern).FormatTime(got); c.ZoneName == "" || again != text {
+				return pbt.Fail("pattern %q has every field: Parse(Format(t)) = %d, t = %d", c.Pattern, ms, c.T)
+			}
 		}
 	}
 	// the same object formats further instants: its output is a function of the pattern and the instant only
@@ -365,14 +380,18 @@ func runFmt(c FmtCase) *pbt.Result {
 
 var specFmt = pbt.Register(pbt.Spec[FmtCase]{
 	Prop: "C19", Name: "dateformat-roundtrip",
-	Rule:  "patterns over the field letters y m d H M S s (date letters all present or all absent, any subset/order of the time letters, occasionally a repeated letter) with optional literal separators (ASCII punctuation, T, Z, multi-byte runes) and an instant of the century drawn field by field with edge values; Parse(Format(t)) must agree with t on every field present (and equal t when all seven are present), with a fresh and with a re-used DateFormat, in a third of the cases with the process's local zone set to a fixed offset between -12 h and +13 h (Parse reads the fields in the local zone); in a third of the cases the same object then formats 1-5 further instants (steps of 1 ms .. 1 day, also backwards): each text must equal what a fresh object produces and parse back to its instant; non-trivial = >= 3 fields; distinct by (pattern, instant)",
+	Rule:  "patterns over the field letters y m d H M S s (date letters all present or all absent, any subset/order of the time letters, occasionally a repeated letter) with optional literal separators (ASCII punctuation, T, Z, multi-byte runes) and an instant of the century drawn field by field with edge values; Parse(Format(t)) must agree with t on every field present (and equal t when all seven are present), with a fresh and with a re-used DateFormat, in a third of the cases with the process's local zone set to a fixed offset between -12 h and +13 h or to one of five named zones, four of them with daylight saving time (Parse reads the fields in the local zone); in a third of the cases the same object then formats 1-5 further instants (steps of 1 ms .. 1 day, also backwards): each text must equal what a fresh object produces and parse back to its instant; non-trivial = >= 3 fields; distinct by (pattern, instant)",
 	Quick: 300000, Thorough: 1500000,
 	Draw: func(t *rapid.T) FmtCase {
 		c := FmtCase{Pattern: drawPattern(t)}
 		in := drawInstant(t)
 		c.T = baseMs + int64(in.Day)*msDay + in.Off
 		if rapid.IntRange(0, 2).Draw(t, "zone?") == 0 {
-			c.Zone = rapid.SampledFrom([]int{540, -480, 330, 345, -210, 60, -60, 780, -720}).Draw(t, "zone")
+			if rapid.Bool().Draw(t, "dstzone") {
+				c.ZoneName = rapid.SampledFrom([]string{"America/New_York", "Europe/Berlin", "Australia/Sydney", "America/Sao_Paulo", "Asia/Seoul"}).Draw(t, "zonename")
+			} else {
+				c.Zone = rapid.SampledFrom([]int{540, -480, 330, 345, -210, 60, -60, 780, -720}).Draw(t, "zone")
+			}
 		}
 		if rapid.IntRange(0, 2).Draw(t, "sequence") == 0 {
 			c.Seq = rapid.SliceOfN(rapid.SampledFrom([]int64{1, 1, 2, 10, 500, 999, 1000, 1001, -1, -999, 59999, 60000, 3600000, 86400000, -86400000}), 1, 5).Draw(t, "seq")
